@@ -214,8 +214,6 @@ def _walk_chunk(job):
         hist = []
         for label, dst in walk:
             act, arg = _parse_label(label)
-            if act == "Solve":
-                continue
             n += 1
             exc = None
             obs = {}
@@ -235,6 +233,15 @@ def _walk_chunk(job):
                 bad.append(("equalities", got["eqs"], dst["eqs"]))
             if act == "Query" and not exc and not obs.get("copies"):
                 bad.append(("copies",))
+            if act == "Solve" and not exc:
+                exp = dst["exp"]
+                wellposed = exp["cls"] in ("solvable", "pinf", "dinf")
+                if wellposed and (obs["out"] != obs["fresh"] or (obs["out"] == "optimal" and obs["val"] != obs["freshval"])):
+                    bad.append(("same-as-fresh", obs))
+                if obs["out"] != "raise" and obs["out"] not in exp["allowed"]:
+                    bad.append(("status", obs, exp))
+                if obs["out"] == "optimal" and exp["cls"] == "solvable" and obs["val"] != exp["opt"]:
+                    bad.append(("value", obs, exp))
             if bad:
                 res.append({"kind": "mismatch", "path": list(hist), "label": label, "act": act, "arg": arg, "bad": bad,
                             "dst": dst, "got": got, "walk": True})
@@ -432,7 +439,11 @@ def run(tier, seed, replay=None):
                 break
             d, lbl = rnd.choice(adj[s])
             st = nodes[d]
-            w.append((lbl, {"present": list(st["present"]), "ineqs": st["ineqs"], "eqs": st["eqs"]}))
+            ds = {"present": list(st["present"]), "ineqs": st["ineqs"], "eqs": st["eqs"]}
+            if lbl.startswith("Solve"):
+                e = table[(st["obj"], frozenset(st["ineqs"] + st["eqs"]))]
+                ds["exp"] = {"allowed": e["allowed"], "cls": e["cls"], "opt": e["opt"]}
+            w.append((lbl, ds))
             s = d
         walks.append(w)
     with mp.Pool(16) as pool:
